@@ -25,10 +25,27 @@ import torch
 from harness import common as C
 
 PROP = "C19"
-HEADER = "Require Import Coq.QArith.QArith PF.Lib.ListX PF.Model.Mixup."
-MODEL_TARGETS = ["Model/Mixup.vo"]
+HEADER = (
+    "Require Import Coq.QArith.QArith Coq.Lists.List Coq.ZArith.ZArith Coq.Bool.Bool PF.Lib.ListX PF.Model.Mixup.\n"
+    "From PF Require Import Lib.FloatSelect.\n"
+    "(* IEEE level: torch's output entry against select32 (Flocq binary32) on (sign, mantissa, exponent) triples *)\n"
+    "Definition sel1 (q : bool * (bool * Z * Z) * (bool * Z * Z) * (bool * Z * Z)) : bool :=\n"
+    "  match q with (b, x, y, (s', m', e')) =>\n"
+    "    match select32 b x y with\n"
+    "    | Some (s, m, e) => andb (andb (Bool.eqb s s') (Z.eqb m m')) (Z.eqb e e')\n"
+    "    | None => false\n"
+    "    end\n"
+    "  end.\n"
+    "Definition sel_ok l := forallb sel1 l.      (* every sampled entry, with the recovered mask bit and partner *)\n"
+    "Definition sel_any l := existsb sel1 l.     (* SOME mask bit / partner row explains the entry *)")
+MODEL_TARGETS = ["Model/Mixup.vo", "Lib/FloatSelect.vo"]
+# Print Assumptions of the three IEEE-level theorems lists the stdlib axioms Flocq / Reals import
+ALLOWED_AXIOMS = ("ClassicalDedekindReals.", "FunctionalExtensionality.", "Classical_Prop.")
+SELECT_SAMPLE = 24
 SHARD = 150
-RULE = ("one call -- or a sequence of 2-4 calls sharing in-place refreshed tensor objects (mi_scores, x, y) -- of "
+RULE = ("(feature entries: all-distinct float32 values 1e-45..1e8 traced by exact bit lookup; per call up to 24 "
+        "entries, extreme magnitudes / zeros / subnormals first, are also checked bit for bit against Flocq's "
+        "binary32 evaluation of mask*x + ~mask*x') one call -- or a sequence of 2-4 calls sharing in-place refreshed tensor objects (mi_scores, x, y) -- of "
         "feature_mixup (directly or through ExcelFormer.forward(mixup_encoded=True)) on a batch "
         "[B<=6, F<=4, D<=4] of all-distinct ids under a fresh torch seed; distinct = distinct (entry point, mode, "
         "target kind, B, F, D, recovered own/partner pattern, number of self/unconstrained rows, raise/no-raise); "
@@ -39,14 +56,23 @@ TRUSTED = [
     "hand-written model coq/Model/Mixup.v of excelformer.py:feature_mixup with the random draws as explicit inputs, "
     "tied to /repo by this run's observational correspondence on draws recovered from the outputs",
     "modelled primitives: torch broadcasting of a [B,1] rate / [B,F,1] / [B,1,D] mask, tensor[index], F.one_hot, "
-    "bool*float arithmetic; rationals stand for float32 (targets compared with tolerance 2e-6 * scale)",
+    "bool*float arithmetic; feature entries are all-distinct float32 values of magnitudes 1e-45..1e8 traced back "
+    "to integer ids by exact bit lookup; rationals stand for float32 targets (tolerance 2e-6 * scale)",
     "harness/c19.py (generator, draw recovery, clause-by-clause oracle, Coq literal printer)",
+    "Flocq (BinarySingleNaN) as the definition of IEEE binary32 multiplication / addition, and -- ONLY for "
+    "mixup_entry_ieee_exact, mixup_entry_never_reads_other, rewritten_select_is_refuted -- the Coq standard library "
+    "axioms it imports with Reals: ClassicalDedekindReals.sig_not_dec, ClassicalDedekindReals.sig_forall_dec, "
+    "FunctionalExtensionality.functional_extensionality_dep, Classical_Prop.classic; torch's float32 kernel is tied "
+    "to Flocq's mask_select by the select32 correspondence on up to 24 entries per call (bit-exact incl. the sign "
+    "of zeros)",
 ]
 ASSUMPTIONS = [
     "H_draws: Beta(beta,beta).sample, torch.randperm and torch.rand return rates in [0,1], indices < B and "
     "uniforms; their distribution is not part of the property (the theorems hold for every value of the draws)",
     "float32 round-off of lambda and of the convex combination is outside the exact model (tolerance 2e-6 * scale)",
-    "feature entries are finite (0 * x = 0); NaN / inf embeddings are outside the model",
+    "feature entries are finite float32 values of any magnitude incl. subnormals and zero (0 * x = 0 exactly, so "
+    "mask*x + ~mask*x' returns one of the two entries bit for bit, up to the sign of a zero: -0.0 and 0.0 are "
+    "identified); inf / nan embeddings are outside the model and never generated (bool * inf = nan in the code)",
 ]
 
 TOL = Fr(2, 10 ** 6)
@@ -56,6 +82,47 @@ TOL = Fr(2, 10 ** 6)
 def gen_ids(rng, B, F, D):
     ids = rng.sample(range(1, 4000), B * F * D)
     return [[[ids[(i * F + j) * D + k] for k in range(D)] for j in range(F)] for i in range(B)]
+
+
+MANTISSAS = [0.1, 0.3, 1 / 3, 0.7, 1.1, 2.5, 3.141592653589793, 9.99, 1.0, 7.0, 1.0000001, 0.999999]
+
+
+def f32(v):
+    """the float32 nearest to v, as a Python float"""
+    return float(torch.tensor(v, dtype=torch.float32))
+
+
+def gen_vals(rng, x):
+    """The float32 payload of every id: all-distinct values of widely varied magnitude (1e-8 .. 1e8, inexact decimals
+    such as 0.1, subnormals, at most one zero of either sign), so that 'an entry is taken UNCHANGED' means bit
+    equality and any arithmetic on the entries (own + (partner - own), lam-blends, casts) shows.  One case in five
+    keeps the small integers (value = id).  inf / nan are outside the model (bool * inf = nan in the code)."""
+    ids = [v for a in x for b in a for v in b]
+    if rng.chance(0.2):
+        return {str(i): float(i) for i in ids}
+    vals, used = {}, set()
+    for i in ids:
+        for _ in range(100):
+            r = rng.random()
+            if r < 0.03:
+                v = rng.pick([0.0, -0.0])
+            elif r < 0.10:
+                v = rng.pick([1e-40, 5e-45, 3.3e-39, 1.17e-38]) * rng.pick([1, -1, 3])      # subnormal in float32
+            elif r < 0.25:
+                v = float(rng.randint(1, 3000)) * rng.pick([1, -1])
+            else:
+                v = rng.pick(MANTISSAS) * 10.0 ** rng.randint(-8, 8) * rng.pick([1, 1, -1])
+                if rng.chance(0.3):
+                    v *= 1 + rng.randint(1, 99) / 128
+            v = f32(v)
+            key = 0.0 if v == 0 else v
+            if key not in used and v == v and abs(v) != float("inf"):
+                used.add(key)
+                vals[str(i)] = v
+                break
+        else:
+            vals[str(i)] = float(i)
+    return vals
 
 
 def gen_y(rng, tk, B, nc=None):
@@ -96,7 +163,7 @@ def gen_case(rng, tier, entry=None, clean=False):
     beta = rng.pick([0.5, 0.5, 1.0, 2.0, 0.25, 4.0, 0.1])
     mi = gen_mi(rng, F) if (mode == "feature" or rng.chance(0.3)) else None
     case = dict(entry=entry, seed=rng.randrange(1 << 30), B=B, F=F, D=D, mode=mode, num_classes=nc,
-                target=tk, y=y, beta=beta, mi=mi, x=x)
+                target=tk, y=y, beta=beta, mi=mi, x=x, val=gen_vals(rng, x))
     # low rate, outside the quantifier: scores with a ZERO sum (all-nan target, no raise)
     if mode == "feature" and not clean and rng.chance(0.04):
         if F >= 2 and rng.chance(0.3):
@@ -137,7 +204,17 @@ def gen_multi(rng, tier):
     n = rng.pick([2, 3, 3, 4])
     for c in range(1, n):
         prev = calls[-1]
+        if rng.chance(0.3):
+            # the SAME argument objects again, untouched by the harness (other seed, maybe other mode): whatever
+            # an earlier call did to them in place would now be computed on
+            sub = dict(prev, seed=rng.randrange(1 << 30), x_obj="keep", y_obj="keep",
+                       mi_obj="keep" if prev["mi"] is not None else "new")
+            if via == "direct" and rng.chance(0.3):
+                sub["mode"] = rng.pick(["hidden", None] + (["feature"] if prev["mi"] is not None else []))
+            calls.append(sub)
+            continue
         sub = dict(prev, seed=rng.randrange(1 << 30), x=gen_ids(rng, base["B"], base["F"], base["D"]))
+        sub["val"] = gen_vals(rng, sub["x"])
         sub["num_classes"], sub["y"] = gen_y(rng, base["target"], base["B"], base["num_classes"])
         if via == "direct":
             sub["beta"] = rng.pick([0.5, 1.0, 2.0, 0.25])
@@ -177,14 +254,44 @@ def y_tensor(case):
     return torch.tensor(case["y"], dtype=torch.long)
 
 
-def pack_out(xm, ym):
-    obs = {"ok": True, "x_shape": list(xm.shape), "y_shape": list(ym.shape)}
+def val_of(case, i):
+    return case["val"][str(i)] if "val" in case else float(i)
+
+
+def x_tensor(case):
+    return torch.tensor([[[val_of(case, v) for v in b] for b in a] for a in case["x"]], dtype=torch.float32)
+
+
+def pack_out(xm, ym, case):
+    """The mixed feature tensor is read back as IDS by exact (bit) lookup of every float32 entry among the input
+    entries (-0.0 and 0.0 identified: mask*x + ~mask*x' loses the sign of a zero); an entry that is not bit-equal to
+    an input entry makes obs['x'] None."""
+    obs = {"ok": True, "x_shape": list(xm.shape), "y_shape": list(ym.shape), "x_dtype": str(xm.dtype)}
     xl = xm.detach().to(torch.float64).tolist()
-    flat = [v for a in xl for b in a for v in b]
-    if all(v == v and abs(v) < 2 ** 40 and float(v).is_integer() for v in flat):
-        obs["x"] = [[[int(v) for v in b] for b in a] for a in xl]
+    back = {}
+    for a in case["x"]:
+        for b in a:
+            for i in b:
+                v = val_of(case, i)
+                back[0.0 if v == 0 else v] = i
+    ids, bad = [], None
+    for ai, a in enumerate(xl):
+        ids.append([])
+        for bi, b in enumerate(a):
+            ids[-1].append([])
+            for ki, v in enumerate(b):
+                i = back.get(0.0 if v == 0 else v) if (v == v and str(xm.dtype) == "torch.float32") else None
+                if i is None and bad is None:
+                    bad = [ai, bi, ki, repr(v)]
+                ids[-1][-1].append(i)
+    import math
+    obs["x_negzero"] = [[ai, bi, ki] for ai, a in enumerate(xl) for bi, b in enumerate(a) for ki, v in enumerate(b)
+                        if v == 0 and math.copysign(1.0, v) < 0]
+    if bad is None:
+        obs["x"] = ids
     else:
         obs["x"] = None
+        obs["x_bad"] = bad
         obs["x_raw"] = [[[repr(v) for v in b] for b in a] for a in xl]
 
     def q(v):
@@ -203,15 +310,36 @@ def mi_values(case):
 
 
 def refresh(old, new, how):
-    """a tensor holding `new`: the object `old` refreshed in place, or a fresh tensor"""
+    """a tensor holding `new`: the object `old` refreshed in place, a fresh tensor, or (how == "keep": the case repeats
+    the previous call's values) the very object of the previous call WITHOUT rewriting it -- whatever an earlier call
+    did to it stays visible"""
     if old is None or how == "new" or old.shape != new.shape or old.dtype != new.dtype:
         return new
+    if how == "keep":
+        return old
     if how == "setitem":
         for j in range(old.shape[0]):
             old[j] = new[j]
     else:
         old.copy_(new)
     return old
+
+
+def snap_args(**ts):
+    return {k: (None if t is None else t.detach().clone()) for k, t in ts.items()}
+
+
+def changed_args(before, **ts):
+    """names of the argument tensors whose content differs from the snapshot taken before the call"""
+    out = []
+    for k, t in ts.items():
+        b = before[k]
+        if (t is None) != (b is None):
+            out.append(k)
+        elif t is not None and (t.shape != b.shape or t.dtype != b.dtype or not torch.equal(
+                torch.nan_to_num(t.double(), nan=-777.0), torch.nan_to_num(b.double(), nan=-777.0))):
+            out.append(k)
+    return out
 
 
 class DirectSession:
@@ -221,20 +349,24 @@ class DirectSession:
 
     def call(self, case):
         from torch_frame.nn.models.excelformer import feature_mixup
-        self.x = refresh(self.x, torch.tensor(case["x"], dtype=torch.float32), case.get("x_obj", "new"))
+        self.x = refresh(self.x, x_tensor(case), case.get("x_obj", "new"))
         self.y = refresh(self.y, y_tensor(case), case.get("y_obj", "new"))
         if case["mi"] is None:
             mi = None
         else:
             mi = self.mi = refresh(self.mi, torch.tensor(mi_values(case), dtype=torch.float32),
                                    case.get("mi_obj", "new"))
+        before = snap_args(x=self.x, y=self.y, mi_scores=mi)
         torch.manual_seed(case["seed"])
         try:
             xm, ym = feature_mixup(self.x, self.y, num_classes=case["num_classes"], beta=case["beta"],
                                    mixup_type=case["mode"], mi_scores=mi)
         except Exception as ex:
-            return {"ok": False, "exc": C.exc_name(ex)}
-        return pack_out(xm, ym)
+            return {"ok": False, "exc": C.exc_name(ex),
+                    "args_modified": changed_args(before, x=self.x, y=self.y, mi_scores=mi)}
+        obs = pack_out(xm, ym, case)
+        obs["args_modified"] = changed_args(before, x=self.x, y=self.y, mi_scores=mi)
+        return obs
 
     def close(self):
         pass
@@ -278,18 +410,24 @@ class ForwardSession:
     def call(self, case):
         if self.hookless:
             return {"ok": False, "exc": "harness:no-hook-point", "hookless": True}
-        self.state["ids"] = torch.tensor(case["x"], dtype=torch.float32)
+        self.state["ids"] = x_tensor(case)
         self.state.pop("x", None)
         self.tf.y = refresh(self.tf.y, y_tensor(case), case.get("y_obj", "new"))
         self.mi = refresh(self.mi, torch.tensor(mi_values(case), dtype=torch.float32), case.get("mi_obj", "new"))
         self.tf.mi_scores = self.mi
+        from torch_frame import stype
+        feat = self.tf.feat_dict[stype.numerical]
+        before = snap_args(y=self.tf.y, mi_scores=self.mi, feat=feat)
         torch.manual_seed(case["seed"])
         try:
             out, ym = self.model(self.tf, mixup_encoded=True)
         except Exception as ex:
-            return {"ok": False, "exc": C.exc_name(ex)}
-        obs = pack_out(self.state["x"], ym)
+            return {"ok": False, "exc": C.exc_name(ex),
+                    "args_modified": changed_args(before, y=self.tf.y, mi_scores=self.tf.mi_scores, feat=feat)}
+        obs = pack_out(self.state["x"], ym, case)
         obs["out_shape"] = list(out.shape)
+        obs["args_modified"] = changed_args(before, y=self.tf.y, mi_scores=self.tf.mi_scores,
+                                            feat=self.tf.feat_dict[stype.numerical])
         return obs
 
     def close(self):
@@ -345,8 +483,10 @@ def analyse(case, obs):
     tag = f"{mode or 'off'}:{case['target']}"
     x = case["x"]
     if obs.get("x") is None:
-        return fail(f"foreign-value:{tag}", "mixed feature tensor contains values that are no input entries "
-                    "(non-integral)", observed=obs.get("x_raw")), None
+        bad = obs.get("x_bad") or [None, None, None, None]
+        return fail(f"foreign-value:{tag}", f"entry ({bad[0]},{bad[1]},{bad[2]}) of the mixed feature tensor = {bad[3]} "
+                    f"({obs.get('x_dtype')}) is not bit-equal to any entry of the input: entries are not taken "
+                    "UNCHANGED from the own or the partner row", observed=obs.get("x_raw")), None
     xm = obs["x"]
     if obs["x_shape"] != [B, F, D]:
         return fail(f"x-shape:{tag}", "mixed feature tensor has a different shape than the input",
@@ -497,6 +637,10 @@ def oracle_one(case, obs):
     if obs.get("hookless"):
         return fail("harness-no-hook-point", "ExcelFormer has no StypeWiseFeatureEncoder / ExcelFormerConv submodule "
                     "to observe the mixed tensor at")
+    if obs.get("args_modified"):
+        return fail("argument-modified", f"the call modified its argument tensor(s) {obs['args_modified']} in place "
+                    f"(mode {case['mode']}, target {case['target']}, entry {case['entry']})",
+                    observed=obs["args_modified"])
     why = expects_raise(case)
     if why or zero_sum_mi(case):
         return None          # outside the property's quantifier; the outcome is compared by the correspondence
@@ -519,10 +663,12 @@ def oracle(case, obs):
     for i, (sub, o) in enumerate(zip(case["calls"], obs["calls"])):
         f = oracle_one(sub, o)
         if f is not None:
-            shared = [n for n in ("mi", "x", "y") if sub.get(n + "_obj", "new") != "new"]
-            f["key"] += ":after-earlier-calls" if i > 0 else ""
+            shared = [n + ("(kept as is)" if sub.get(n + "_obj") == "keep" else "") for n in ("mi", "x", "y")
+                      if sub.get(n + "_obj", "new") != "new"]
+            if f["key"] != "argument-modified":
+                f["key"] += ":after-earlier-calls" if i > 0 else ""
             f["what"] = (f"call {i} of {len(case['calls'])} in one process"
-                         + (f" (tensor objects refreshed in place since the previous call: {shared})" if shared else "")
+                         + (f" (argument tensor objects shared with the previous call: {shared})" if shared else "")
                          + ": " + f["what"])
             f["call_index"] = i
             return f
@@ -541,6 +687,13 @@ def shrink(case):
         rest = calls[:k] + calls[k + 1:]
         if k == 0:
             rest = [dict(rest[0], mi_obj="new", x_obj="new", y_obj="new")] + rest[1:]
+        elif k < len(calls) - 1:
+            # the successor may have relied on the dropped call's values ("keep"): refresh it in place instead
+            nxt = dict(rest[k])
+            for n in ("x_obj", "y_obj", "mi_obj"):
+                if nxt.get(n) == "keep":
+                    nxt[n] = "copy_"
+            rest = rest[:k] + [nxt] + rest[k + 1:]
         yield dict(case, calls=rest)
     for k, sub in enumerate(calls):
         for n in ("x_obj", "y_obj"):
@@ -623,10 +776,18 @@ def stats(cases, obss):
          "rows": 0, "rows_mixed": 0, "rows_self_or_unconstrained": 0, "rows_with_partner_entries": 0,
          "distinct_targets": 0}
     d["zero_sum_mi_cases"] = sum(1 for c, _ in flatten(cases, obss) if zero_sum_mi(c))
+    def spread(c):
+        vs = [abs(val_of(c, i)) for a in c["x"] for b in a for i in b if val_of(c, i) != 0]
+        return (max(vs) / min(vs)) if vs else 1.0
+    d["calls_with_entry_magnitudes_spread_over_1e6"] = sum(1 for c, _ in flatten(cases, obss) if spread(c) > 1e6)
+    d["calls_with_zero_or_subnormal_entries"] = sum(
+        1 for c, _ in flatten(cases, obss)
+        if any(abs(val_of(c, i)) < 1.2e-38 for a in c["x"] for b in a for i in b))
+    d["calls_on_kept_argument_objects"] = sum(1 for c, _ in flatten(cases, obss) if c.get("y_obj") == "keep")
     d["multi_call_cases"] = sum(1 for c in cases if c is not None and c["entry"] == "multi")
     d["calls_with_mi_tensor_refreshed_in_place"] = sum(
         1 for c in cases if c is not None and c["entry"] == "multi" for sub in c["calls"]
-        if sub.get("mi_obj", "new") != "new" and sub["mode"] == "feature")
+        if sub.get("mi_obj", "new") in ("copy_", "setitem") and sub["mode"] == "feature")
     for c, o in flatten(cases, obss):
         d["total"] += 1
         for k in ("entry", "mode", "target", "B", "F", "D", "beta"):
@@ -662,9 +823,89 @@ def coq_inputs(case):
     return x, y, C.cnat(case["num_classes"]), mt, mi
 
 
+def f32_triple(v):
+    """(sign, mantissa, exponent) of a finite float32 in Flocq's canonical form: value = (-1)^s * m * 2^e"""
+    import struct
+    bits = struct.unpack("<I", struct.pack("<f", v))[0]
+    sgn, E, F = bits >> 31, (bits >> 23) & 0xFF, bits & 0x7FFFFF
+    if E == 255:
+        return None
+    if E == 0:
+        return (sgn, F, -149) if F else (sgn, 0, 0)
+    return (sgn, F + (1 << 23), E - 150)
+
+
+def ctriple(t):
+    return f"({C.cbool(bool(t[0]))}, {t[1]}%Z, {C.cz(t[2])})"
+
+
+def select_term(case, obs, rec):
+    """IEEE-level conjunct: for a sample of entries (zeros, subnormals and the largest own/partner magnitude gaps
+    first) torch's output entry must be select32 of (recovered mask bit, own entry, partner entry), bit for bit."""
+    import math
+    B, F, D = case["B"], case["F"], case["D"]
+    x = case["x"]
+    negz = {tuple(p) for p in obs.get("x_negzero", [])}
+    ent = []
+    for i in range(B):
+        p = rec["partner"][i]
+        for j in range(F):
+            for k in range(D):
+                own, par = val_of(case, x[i][j][k]), val_of(case, x[p][j][k])
+                keep = rec["own"][i][j][k]
+                out = own if keep else par
+                if out == 0:
+                    out = -0.0 if (i, j, k) in negz else 0.0
+                tiny = min(abs(own), abs(par)) < 1.2e-38
+                gap = abs(math.log2(abs(own) or 1e-50) - math.log2(abs(par) or 1e-50))
+                # a row that took no entry from its partner: the partner is known at best through the target (not
+                # uniquely when targets repeat), and the sign of a ZERO output depends on the sign of the partner's
+                # entry (-0.0 + 0.0 * y): some row of the batch must explain it
+                amb = (out == 0 and all(v for c_ in rec["own"][i] for v in c_))
+                ent.append(((0 if tiny else 1, 0 if not keep else 1, -gap),
+                            (keep, own, par, out, [val_of(case, x[r][j][k]) for r in range(B)] if amb else None)))
+    ent.sort(key=lambda e: e[0])
+    rnd = C.Rng(case["seed"])
+    pick = ent[:SELECT_SAMPLE * 2 // 3] + rnd.sample(ent[SELECT_SAMPLE * 2 // 3:],
+                                                     min(SELECT_SAMPLE // 3, max(0, len(ent) - SELECT_SAMPLE * 2 // 3)))
+    items, extra = [], []
+    for _, (keep, own, par, out, amb) in pick:
+        if amb is None:
+            items.append(f"({C.cbool(keep)}, {ctriple(f32_triple(own))}, {ctriple(f32_triple(par))}, "
+                         f"{ctriple(f32_triple(out))})")
+        else:
+            cands = [f"({C.cbool(keep)}, {ctriple(f32_triple(own))}, {ctriple(f32_triple(v))}, "
+                     f"{ctriple(f32_triple(out))})" for v in amb]
+            extra.append(f"sel_any {C.clist(cands)}")
+    return " && ".join([f"sel_ok {C.clist(items)}"] + extra)
+
+
+def foreign_term(case, obs):
+    """The oracle found an output entry that is no input entry: at IEEE level no mask bit and no partner row makes
+    select32 produce it (evaluates to false unless the model and the bit lookup disagree)."""
+    bad = obs.get("x_bad")
+    if not bad or bad[0] is None or obs.get("x_dtype") != "torch.float32":
+        return None
+    i, j, k, rep = bad
+    try:
+        out = f32_triple(float(rep))
+    except (ValueError, OverflowError):
+        out = None
+    if out is None or obs["x_shape"] != [case["B"], case["F"], case["D"]]:
+        return "false"
+    x = case["x"]
+    own = f32_triple(val_of(case, x[i][j][k]))
+    cands = [f"(true, {ctriple(own)}, {ctriple(own)}, {ctriple(out)})"]
+    cands += [f"(false, {ctriple(own)}, {ctriple(f32_triple(val_of(case, x[p][j][k])))}, {ctriple(out)})"
+              for p in range(case["B"])]
+    return f"sel_any {C.clist(cands)}"
+
+
 def coq_term_one(case, obs):
     if "harness_exc" in obs or obs.get("hookless"):
         return None
+    if obs.get("args_modified"):
+        return "false"               # the model is a pure function of its arguments
     x, y, nc, mt, mi = coq_inputs(case)
     B, F, D = case["B"], case["F"], case["D"]
     if zero_sum_mi(case):
@@ -682,6 +923,8 @@ def coq_term_one(case, obs):
     if rec is None:
         if expects_raise(case) or zero_sum_mi(case):
             return "false"           # model raises, implementation returned / feature tensor not traceable
+        if obs.get("x") is None:
+            return foreign_term(case, obs)
         return None                  # the oracle reports the structural failure
     if case["mode"] == "feature":
         rates = [Fr(1, 2)] * B
@@ -705,7 +948,7 @@ def coq_term_one(case, obs):
         yo = f"(YMClass {C.clist(obs['y'], lambda r: C.clist([fr_of(v) for v in r], cq))})"
     else:
         yo = f"(YMScalar {C.clist([fr_of(v) for v in obs['y']], cq)})"
-    return f"mixup_agrees {x} {y} {nc} {mt} {mi} {dr} {cq(rec['tol'])} {xo} {yo}"
+    return f"(mixup_agrees {x} {y} {nc} {mt} {mi} {dr} {cq(rec['tol'])} {xo} {yo} && {select_term(case, obs, rec)})"
 
 
 def coq_term(case, obs):
@@ -747,4 +990,10 @@ def sanity(cases, obss):
         probs.append("no multi-call sequence with an in-place refreshed mi_scores tensor")
     if d["zero_sum_mi_cases"] == 0:
         probs.append("zero-sum mi_scores never drawn")
+    if d["calls_with_entry_magnitudes_spread_over_1e6"] < 0.3 * n:
+        probs.append("fewer than 30 % of the calls carry feature entries of widely different magnitudes")
+    if d["calls_with_zero_or_subnormal_entries"] == 0:
+        probs.append("no call with zero / subnormal feature entries")
+    if d["calls_on_kept_argument_objects"] == 0:
+        probs.append("no repeated call on the untouched argument objects of the previous call")
     return probs
